@@ -15,6 +15,7 @@ import (
 	"fmt"
 	"os"
 	"path/filepath"
+	"strings"
 	"testing"
 
 	"verifharness/kit"
@@ -193,7 +194,9 @@ func runCrash(c Case, cc *kit.Case) {
 			m = preR
 			r.label("boundary shows the pre-request catalogue")
 		default:
-			bads = append(bads, bad{i + 1, classifyCrash(target, preR, postR, o, dPre, dPost),
+			// "partial/...": the request is not atomic across a crash (one known-finding key
+			// per request kind: crash/<kind>/partial/*)
+			bads = append(bads, bad{i + 1, "partial/" + classifyCrash(target, preR, postR, o, dPre, dPost),
 				fmt.Sprintf("the catalogue is neither the one before the request (%s) nor the one after it (%s)\n    observed: %s", dPre, dPost, fmtObserved(o))})
 			continue
 		}
@@ -224,6 +227,7 @@ func runCrash(c Case, cc *kit.Case) {
 
 // crashGravity orders the classes of unrecovered boundaries (the gravest names the failure).
 func crashGravity(class string) int {
+	class = strings.TrimPrefix(class, "partial/")
 	switch {
 	case class == "some-tasks-changed-others-not":
 		return 9
@@ -235,7 +239,7 @@ func crashGravity(class string) int {
 		return 5
 	case class == "template-changed-tasks-not":
 		return 3
-	case len(class) > 12 && (class[:12] == "pre-request-" || class[:13] == "post-request-"):
+	case strings.HasPrefix(class, "pre-request-"), strings.HasPrefix(class, "post-request-"):
 		return 2
 	}
 	return 6
@@ -256,8 +260,9 @@ func fmtObserved(o *observed) string {
 
 // ---------------------------------------------------------------- generator
 
-// excluded target classes of the crash unit (known defects: requests that are not atomic
-// across a crash).
+// Excluded target classes of the crash unit: requests that are several task_store
+// transactions and not atomic across a crash (known findings crash/<kind>/partial/...,
+// see known_findings_C14.final.json; their witnesses are replayed on every run).
 var excludedCrash = map[string]bool{
 	"crash:rename":                     true,
 	"crash:create-from-template":       true,
@@ -281,8 +286,7 @@ func crashClass(sh *model, op Op) string {
 			return "crash:rename"
 		}
 		if t, ok := sh.tasks[op.ID]; ok && op.Tmpl != "" && op.Tmpl != t.Tmpl {
-			// (on the unchanged tree this class never commits an association at all - the
-			// Catalogue class "template-changed-without-rename" - and is excluded there)
+			// (task and association are two transactions since fix e62cd16)
 			return "crash:template-assignment"
 		}
 	case "delete":
